@@ -14,7 +14,7 @@
 -/
 import Driver.Proto
 import FcModel.Spec.C12
-namespace Fc.Drv
+namespace Fc.Drv.C12
 open Fc.DirMode
 
 def pOutcome : P Outcome := do
@@ -102,4 +102,7 @@ def handleC12 (op : String) : Option (P String) :=
   | "c12fm" => some opC12Fm
   | _ => none
 
-end Fc.Drv
+end Fc.Drv.C12
+
+/-- re-export for Driver/Main.lean -/
+def Fc.Drv.handleC12 := Fc.Drv.C12.handleC12
